@@ -18,7 +18,7 @@ PrevOf(l, r) == LET S == {j \in 1..Len(l) : IsFor(l[j], r)} IN IF S = {} THEN 0 
 Entries(l) ==
     {[k |-> "pol", v |-> v, cv |-> TRUE, sv |-> TRUE] : v \in {"A", "B"}}
     \cup {[k |-> "ref", ref |-> "main", s |-> s, tree |-> t, par |-> PrevOf(l, "main")] : s \in {"p1", "p3"}, t \in {1, 2}}
-    \cup {[k |-> "ann", tg |-> {i}, s |-> "p1"] : i \in {j \in 1..Len(l) : l[j].k = "ref"}}
+    \cup {[k |-> "ann", tg |-> {i}, s |-> "p1"] : i \in {j \in 1..Len(l) : l[j].k = "ref" \/ (l[j].k = "pol" /\ j > 1)}}     \* revoking a policy entry has no effect
 Actions(l) == {[a |-> "grow", e |-> e] : e \in Entries(l)} \cup {[a |-> "populate"], [a |-> "delete"]}
               \cup {[a |-> "verify", mode |-> m, ref |-> "main"] : m \in {"full", "latest"}}
 
@@ -35,7 +35,9 @@ CacheInvisible == /\ VerifyFullC(w, "main", {}).res = Impl(w.log, "main", {})
 Manifest == VerifyFullC(w, "main", AsBuilt).res # Impl(w.log, "main", AsBuilt) \/ VerifyLatestC(w, "main", AsBuilt).res # ImplLatest(w.log, "main", AsBuilt)
 Weight == Len(acts) * 5 + Len(w.log) * 3 + Cardinality(w.cache.pol) * 7 + w.cache.last["main"] * 11 + (IF w.cache.on THEN 13 ELSE 0)
 Norm(a) == IF a.a = "grow" /\ a.e.k = "ann" THEN [a EXCEPT !.e = [k |-> "ann", tg |-> SetToSeq(a.e.tg), s |-> a.e.s]] ELSE a
-Emit == IF acts # <<>> /\ acts[Len(acts)].a = "verify" /\ (Manifest \/ Weight % EmitMod = EmitRes)
+\* a revoked policy entry (revocation of a policy entry has no effect: every lookup must keep applying it)
+RevokedPolicy == \E i \in 2..Len(w.log) : w.log[i].k = "pol" /\ \E j \in (i + 1)..Len(w.log) : w.log[j].k = "ann" /\ i \in w.log[j].tg
+Emit == IF acts # <<>> /\ acts[Len(acts)].a = "verify" /\ (Manifest \/ Weight % EmitMod = EmitRes \/ (RevokedPolicy /\ (Len(acts) <= 6 \/ (Weight + Len(acts) + Len(w.log)) % 7 = EmitRes % 7)))
         THEN PrintT(ToJson([t |-> "SCN", acts |-> [i \in DOMAIN acts |-> Norm(acts[i])]]))
         ELSE IF acts = <<>> THEN PrintT(ToJson([t |-> "POL", pol |-> [v \in {"A", "B"} |->
                  [rules |-> [r \in {"main", "feat"} |-> [n \in DOMAIN Pol[v].rules[r] |-> [pr |-> SetToSeq(Pol[v].rules[r][n].pr), thr |-> Pol[v].rules[r][n].thr]]],
